@@ -656,7 +656,12 @@ fn expressions(quick: bool) -> Vec<String> {
             "hsla(0, 0%, 0%, 0)", "hwb(0 0% 100% / 0)", "rgba(white, 0)", "rgba(0, 0, 1, 0)",
             "rgb(127.00000005, 0, 0)", "rgb(127.0000002, 0, 0)", "rgb(254.99999995, 0, 255)",
             "rgb(127.5, 0, 0)", "rgb(0.00000000004, 0, 0)", "rgba(255, 0, 0, 0.99999999999)",
-            "rgba(255, 0, 0, 0.9999999)", "hsl(359.99999995, 50%, 50%)", "hsl(359.9999998, 50%, 50%)",
+            "rgba(255, 0, 0, 0.9999999)",
+            // alpha just below 1 (within one byte step: 254.5/255 = 0.99804 .. 1)
+            "rgba(10, 20, 30, 0.999)", "rgba(10, 20, 30, 0.9985)", "rgba(10, 20, 30, 0.998)", "rgba(255, 0, 0, 0.996)",
+            "transparentize(red, 0.001)", "rgba(10.5, 20, 30, 0.999)", "hsla(20, 50%, 50%, 0.999)", "adjust-hue(rgba(200, 20, 30, 0.999), 30deg)",
+            // alpha just above 0
+            "rgba(10, 20, 30, 0.001)", "rgba(10, 20, 30, 0.0019)", "hsla(20, 50%, 50%, 0.001)", "hsl(359.99999995, 50%, 50%)", "hsl(359.9999998, 50%, 50%)",
             "hsl(359.99999999996, 50%, 50%)", "hsla(359.99999995, 100%, 25%, 0.5)",
         ]
         .map(String::from),
